@@ -129,6 +129,7 @@ func RunOne(t *testing.T, sc *scen.Scenario, job *Job, seed uint64, tape []uint3
 			w := env.NewWorld(tp, dir)
 			if job.Verbose {
 				w.S.J.Keep = 0
+				w.S.J.Dump = os.Getenv("SIM_DUMP") != ""
 			}
 			c := &scen.Ctx{W: w, S: w.S, T: tp, Prop: job.Prop, Tier: job.Tier, Res: res, Arg: job.Args}
 			func() {
